@@ -77,7 +77,10 @@ def check(case):
     r.label(*input_labels(samples))
     fw = opts["fw"]
     r.label("fw:" + fw)
-    ok, b1 = unowned(r, pl.build, samples, opts)
+    extra = [tuple(x) for x in case.get("extra_models", [])]
+    if extra:
+        r.label("several-root-models")
+    ok, b1 = unowned(r, pl.build, samples, opts, "Root", extra)
     if not ok:
         return r
     tree = pl.is_tree(b1.reg)
@@ -95,15 +98,27 @@ def check(case):
     # flat: first class statement is the root model, everything at module level
     root = b1.roots[0].type
     first = next((n for n in vf.tree.body if isinstance(n, ast.ClassDef)), None)
-    if tree and (first is None or first.name != root.name):
+    if tree and not extra and (first is None or first.name != root.name):
         r.fail("flat:root-not-first", f"first class {getattr(first, 'name', None)!r}, root {root.name!r}\n{src_flat}")
+    if tree and extra:
+        # a forest: every root model is listed before every non-root model
+        root_names = {m.name for m in pl.root_models(b1.reg)}
+        order = [n.name for n in vf.tree.body if isinstance(n, ast.ClassDef)]
+        seen_non_root = None
+        for n in order:
+            if n in root_names:
+                if seen_non_root is not None:
+                    r.fail("flat:root-after-non-root", f"root {n!r} is listed after non-root {seen_non_root!r}: {order}\n{src_flat}")
+                    break
+            elif seen_non_root is None:
+                seen_non_root = n
     if any(encl for _, encl, _ in vf.ld.classes):
         r.fail("flat:nested-class-in-flat-layout", src_flat)
     if not tree:
         r.nontrivial = nmodels >= 3
         return r
     # nested from an independent registry
-    ok, b2 = unowned(r, pl.build, samples, opts)
+    ok, b2 = unowned(r, pl.build, samples, opts, "Root", extra)
     if not ok:
         return r
     ok, src_nested = unowned(r, pl.render, b2.reg, dict(opts, nested=True))
@@ -170,11 +185,24 @@ def cases(draw, tier="quick"):
     opts = draw(gen.option_sets(universe))
     opts["merge"] = draw(st.one_of(st.just([["exact"]]), st.just([["percent", 100]]), st.just([["number", 10]]), st.just([["number", 10]]),
                                    gen.merge_policies()))
-    return {"samples": samples, "opts": opts}
+    case = {"samples": samples, "opts": opts}
+    if draw(st.integers(0, 3)) == 0:
+        # further root models over key universes of their own (suffix), so that the forest stays a forest
+        from .c15 import rename
+        extra = []
+        for i, name in enumerate(draw(st.lists(st.sampled_from(["Alpha", "Beta", "Gamma"]), min_size=1, max_size=3, unique=True))):
+            smp = draw(st.one_of(nested_objs, gen.sample_lists(universe, max_samples=2, max_leaves=6)))
+            extra.append([name, rename(smp, "_r%d" % i)])
+        case["extra_models"] = extra
+    return case
 
 
 def valid(case):
-    return c01.valid(case)
+    for item in case.get("extra_models", []):
+        if not (isinstance(item, list) and len(item) == 2 and isinstance(item[0], str) and item[0].isidentifier()
+                and c01.valid({"samples": item[1], "opts": case["opts"]})):
+            return False
+    return c01.valid({"samples": case["samples"], "opts": case["opts"]})
 
 
 def phases(tier):
